@@ -387,6 +387,8 @@ def build_file(spec):
         row0 += nrows
     fmd = {"version": 1, "schema": schema, "num_rows": sum(spec["row_groups"]), "row_groups": rgs,
            "created_by": spec.get("created_by", "refpq spec-level writer 1.0").encode("utf8")}
+    if spec.get("column_orders"):
+        fmd["column_orders"] = [{"TYPE_ORDER": {}} for _ in leaves]
     if spec.get("kv"):
         fmd["key_value_metadata"] = [{"key": k if isinstance(k, bytes) else k.encode(), "value": v if isinstance(v, bytes) else v.encode()} for k, v in spec["kv"]]
     fb = CP.encode(fmd, "FileMetaData", idl)
